@@ -177,4 +177,119 @@ Proof.
   all: try (unfold after_phase, dist, dA, len_cbs in *; simpl; lia).
 Qed.
 
+(* ---------- the control thread after the loop flag has been lowered: a strictly decreasing measure ----------
+   Once a shutdown has lowered the loop flag, every own operation of the control thread - the rest of the tick,
+   the finally-shutdown, the joins (enabled as soon as the joined thread has exited), the final save, the return of
+   launch() - brings it strictly closer to its end; only the marks of components saving inside the final state
+   (LOther) do not count.  Together with [shutdown_decreases] (the background threads) this is the bound on
+   "launch() returns within a bounded time of the shutdown request" (user callbacks are assumed to return). *)
+Definition ck (k : cont) : nat :=
+  match k with
+  | KFinally => n + 9
+  | KAfterUptime => n + 15
+  | KAfterPoll => n + 21
+  | KAfterDrain | KDrain | KCond => 2 * n + 27
+  end.
+
+Definition cdist (c : cpc) : nat :=
+  match c with
+  | CMainDone => 0
+  | CMainExit => 1
+  | CJoinClient => 2
+  | CDone => 3
+  | CFinSave1 => 4
+  | CFinSave0 => 5
+  | CFinScale => 6
+  | CJoin k => 7 + (n - k)
+  | CShut4 k => ck k + 1
+  | CShut3 k => ck k + 2
+  | CShut2 k => ck k + 3
+  | CShut1 k => ck k + 4
+  | CShut0 k => ck k + 5
+  | CAfterUptime => ck KFinally + 6
+  | CAfterPoll => ck KAfterUptime + 6
+  | CPoll k _ => ck KAfterPoll + 6 + (n - k)
+  | _ => 1000 + 10 * n
+  end.
+
+Lemma ret_cont_cdist k : shut_k k = true -> cdist (ret_cont n with_web k) <= ck k.
+Proof.
+  destruct k; try discriminate; intros _; unfold Threads.ret_cont, poll_pc, join_pc;
+    destruct (Nat.eqb_spec n 0); cbn [cdist ck]; lia.
+Qed.
+
+(* indices of the polls, joins and starts stay below n *)
+Definition idx_ok (c : cpc) : Prop := match c with CPoll k _ | CJoin k | CStart k => k < n | _ => True end.
+
+Lemma idx_ret k : idx_ok (ret_cont n with_web k).
+Proof. destruct k; unfold Threads.ret_cont, drain_pc, poll_pc, join_pc; destruct with_web; destruct (Nat.eqb_spec n 0); cbn; lia. Qed.
+Lemma idx_tp ok ret k : idx_ok (tp_return n with_web ok ret k).
+Proof. unfold Threads.tp_return. destruct ret as [ap|]; [destruct ok|]; try apply idx_ret; exact I. Qed.
+
+Lemma idx_ctl s l s' : idx_ok (cp s) -> Threads.ctl_step n kind max_attempts with_web s l = Some s' -> idx_ok (cp s').
+Proof.
+  intros HI Hstep. unfold Threads.ctl_step in Hstep.
+  destruct (cp s) eqn:Hc; destruct l; try discriminate;
+    repeat match type of Hstep with
+           | context [match ?x with _ => _ end] => destruct x eqn:?; try discriminate
+           end;
+    inversion Hstep; subst; clear Hstep;
+    unfold exc_goto, ctl, set_cp, set_res, set_misc, set_pp, set_bp, after_pool, start_pool; cbn [cp];
+    try apply idx_ret; try apply idx_tp; try exact I; try (rewrite Hc; exact HI);
+    repeat match goal with Hx : (_ && _) = true |- _ => apply andb_true_iff in Hx; destruct Hx end;
+    repeat match goal with Hx : (_ =? _) = true |- _ => apply Nat.eqb_eq in Hx; subst
+                         | Hx : (_ =? _) = false |- _ => apply Nat.eqb_neq in Hx end;
+    unfold drain_pc, poll_pc, join_pc;
+    repeat match goal with |- context [if ?b then _ else _] => destruct b eqn:? end;
+    repeat match goal with Hx : (_ =? _) = true |- _ => apply Nat.eqb_eq in Hx
+                         | Hx : (_ =? _) = false |- _ => apply Nat.eqb_neq in Hx end;
+    cbn in *; try exact I; try lia.
+Qed.
+
+Lemma idx_reachable : forall tr s s', idx_ok (cp s) -> run s tr = Some s' -> idx_ok (cp s').
+Proof.
+  induction tr as [|[t l] tr IH]; intros s s' HI H; [inversion H; subst; exact HI|].
+  cbn [Threads.run] in H. destruct (step s t l) as [s1|] eqn:E; [|discriminate].
+  apply (IH s1 s'); [|exact H].
+  destruct t as [|i|j| |].
+  - unfold Threads.step in E. eapply idx_ctl; eassumption.
+  - unfold Threads.step in E. destruct (i <? n); [|discriminate].
+    destruct (bg_frame kind _ _ _ _ E) as (_ & _ & _ & Ec & _). rewrite Ec. exact HI.
+  - unfold Threads.step in E. destruct (j <? n); [|discriminate]. apply pool_cases in E.
+    assert (Ec : cp s1 = cp s) by (destruct E as [(_ & _ & ->)|[(_ & ->)|[(nt & b & _ & _ & ->)|(_ & ->)]]]; reflexivity).
+    rewrite Ec. exact HI.
+  - assert (Ec : cp s1 = cp s).
+    { unfold Threads.step, client_step in E. destruct (client_done s); [discriminate|].
+      destruct l; try discriminate;
+        repeat match type of E with context [if ?x then _ else _] => destruct x eqn:?; try discriminate end;
+        inversion E; subst; reflexivity. }
+    rewrite Ec. exact HI.
+  - assert (Ec : cp s1 = cp s).
+    { unfold Threads.step, web_step in E. destruct (web s) as [|[|w]]; try discriminate. destruct l; try discriminate.
+      destruct raised; [discriminate|]. inversion E; subst; reflexivity. }
+    rewrite Ec. exact HI.
+Qed.
+
+Theorem control_thread_winds_down tr s l s' : run init tr = Some s -> running s = false ->
+  Threads.ctl_step n kind max_attempts with_web s l = Some s' -> l <> LOther -> cdist (cp s') < cdist (cp s).
+Proof.
+  intros H Hr Hstep Hl.
+  destruct (inv2_reachable _ _ _ _ _ _ _ H) as (HI & _ & _ & _ & _ & _ & _ & J7 & J8 & _).
+  specialize (J7 Hr).
+  assert (HX : idx_ok (cp s)) by (apply (idx_reachable tr init s); [exact I|exact H]).
+  unfold Threads.ctl_step in Hstep.
+  destruct (cp s) eqn:Hc; try discriminate J7; destruct l; try discriminate; try congruence;
+    repeat match type of Hstep with
+           | context [match ?x with _ => _ end] => destruct x eqn:?; try discriminate
+           end;
+    inversion Hstep; subst; clear Hstep;
+    unfold exc_goto, ctl, set_cp, set_res, set_misc, set_pp, set_bp; cbn [cp];
+    cbn [shut_pc_ok] in J8;
+    try (pose proof (ret_cont_cdist _ J8)); rewrite ?Hr;
+    repeat match goal with Hx : (_ && _) = true |- _ => apply andb_true_iff in Hx; destruct Hx end;
+    repeat match goal with Hx : (_ =? _) = true |- _ => apply Nat.eqb_eq in Hx; subst
+                         | Hx : (_ =? _) = false |- _ => apply Nat.eqb_neq in Hx end;
+    unfold cdist, ck in *; try lia; cbn in HX; lia.
+Qed.
+
 End Live.
